@@ -335,8 +335,35 @@ def decide(pid, tier, seed, P, vres, kres, kmeta, vac, t0, evdir):
                 files_by_h[h['name']] = grp['files']
     for m in kmeta:
         if m.get('compile_error'):
-            undecided.append('kani build failed: ' + re.sub(r'\s+', ' ', '\n'.join(
-                l for l in m.get('out', '').split('\n') if l.startswith('error'))[:800]))
+            msg = 'kani build failed: ' + re.sub(r'\s+', ' ', '\n'.join(
+                l for l in m.get('out', '').split('\n') if l.startswith('error'))[:800])
+            found_ = False
+            if not m.get('out', '').startswith('engine error'):
+                # the tree no longer builds under the Kani compiler (a construct it cannot translate, or an internal error): the
+                # harnesses of this group cannot decide; let the executable contract attached to a harness file decide on the real code
+                for n_ in m.get('files', []):
+                    try:
+                        hf_ = kunit.parse_harness_file(os.path.join(kunit.HARNESS_DIR, os.path.basename(n_)))
+                    except Exception:
+                        continue
+                    orc_ = hf_['harnesses'][0].get('oracle') if hf_['harnesses'] else None
+                    if not orc_:
+                        continue
+                    try:
+                        f_, olog_, inp_ = run_oracle(orc_, None)
+                    except Exception as e:
+                        continue
+                    if f_:
+                        os.makedirs(os.path.join(evdir, 'replay'), exist_ok=True)
+                        path_ = os.path.join(evdir, 'replay', '%s-kani-build-%s.json' % (pid, os.path.basename(n_).replace('.rs', '')))
+                        json.dump({'property': pid, 'kind': 'kani-build', 'harness_file': n_, 'verifier_output': msg,
+                                   'oracle': {'inject': orc_['inject'], 'test': orc_['test'], 'log': olog_[-6000:], 'failing_input': inp_}}, open(path_, 'w'), indent=1)
+                        violations.append({'obligation': 'kani/%s/(the tree no longer builds under the Kani compiler) -- the executable contract of the harness file finds a failing input' % os.path.basename(n_),
+                                           'replay': path_, 'found_input': True, 'message': msg})
+                        found_ = True
+                        break
+            if not found_:
+                undecided.append(msg)
         for s in m.get('stubs', []):
             a = 'kani::stub %s (contract stub, see harness/common.rs)' % re.sub(r'\s+', '', s)
             if a not in assumptions:
